@@ -103,7 +103,7 @@ func main() {
 			}
 		}()
 		r.Run(c)
-		if tier == "thorough" && replay == "" {
+		if (tier == "thorough" || os.Getenv("VERIF_CONTROLS") != "") && replay == "" {
 			runControls(c, r, *verif, *repo)
 		}
 	}()
